@@ -14,6 +14,7 @@ type isStandardClass interface {
 	sharedInitArgDefs(name string) []*SlotDef
 	initFormMap() map[string]*SlotDef
 	defaultsMap() map[string]slip.Object
+	directDefaultsMap() map[string]slip.Object
 	precedenceList() []slip.Symbol
 
 	Ready() bool
